@@ -188,6 +188,42 @@ def r19_3(ctx, rep):
     rep.ob(R, API + ":load_model", "metadata zip", ok, "metadata[key] must pair category k with output k of variable_metadata_function(parameter_vector)")
 
 
+def _list_alternatives(fn, e, depth=4):
+    """the element lists an expression can stand for: a list display (starred names spliced in), a local bound to such lists (one
+    alternative per binding), or a `+` of two of them; None when it is something else"""
+    if depth == 0:
+        return None
+    if isinstance(e, (ast.List, ast.Tuple)):
+        alts = [[]]
+        for el in e.elts:
+            if isinstance(el, ast.Starred) and isinstance(el.value, ast.Name):
+                sub = _list_alternatives(fn, el.value, depth - 1)
+                if sub is None:
+                    alts = [a + [el.value] for a in alts]
+                else:
+                    alts = [a + s_ for a in alts for s_ in sub]
+            elif isinstance(el, ast.Starred):
+                alts = [a + [el.value] for a in alts]
+            else:
+                alts = [a + [el] for a in alts]
+        return alts
+    if isinstance(e, ast.Name):
+        defs = [st.value for st in ast.walk(fn) if isinstance(st, ast.Assign) and len(st.targets) == 1 and is_name(st.targets[0], e.id)]
+        out = []
+        for d in defs:
+            sub = _list_alternatives(fn, d, depth - 1)
+            if sub is None:
+                return None
+            out.extend(sub)
+        return out or None
+    if isinstance(e, ast.BinOp) and isinstance(e.op, ast.Add):
+        a, b = _list_alternatives(fn, e.left, depth - 1), _list_alternatives(fn, e.right, depth - 1)
+        if a is None or b is None:
+            return None
+        return [x + y for x in a for y in b]
+    return None
+
+
 @SPEC.rule(
     "R19.4",
     "signature agreement: [time, states, der_states, alg_states, inputs, constants, parameters] is the argument order "
@@ -201,9 +237,11 @@ def r19_4(ctx, rep):
         fn = ctx.func(MODEL, "Model." + prop, R)
         k = 0
         for c in calls(fn):
-            if call_name(c) == "ca.Function" and len(c.args) >= 2 and isinstance(c.args[1], ast.List):
-                k += 1
-                sites.append((MODEL + ":Model." + prop, "ca.Function inputs #%d" % k, signature_of(c.args[1].elts)))
+            if call_name(c) == "ca.Function" and len(c.args) >= 2:
+                # the input list may be written in place, built in a local, chosen per branch or spliced together (`[t, *state_inputs, c, p]`)
+                for alt in _list_alternatives(fn, c.args[1]) or []:
+                    k += 1
+                    sites.append((MODEL + ":Model." + prop, "ca.Function inputs #%d" % k, signature_of(alt)))
     # every local list in save_model / load_model that starts with the model's time symbol is an argument list of those functions
     for rel, q in ((API, "save_model"), (API, "load_model")):
         fn = ctx.func(rel, q, R)
@@ -246,7 +284,7 @@ def _names(e):
 def r19_6(ctx, rep):
     R = "R19.6"
     vm = ctx.func(MODEL, "Model.variable_metadata_function", R)
-    per_element = any(isinstance(c, ast.Call) and call_name(c).endswith("repmat") and any(
+    per_element = any(isinstance(c, ast.Call) and (call_name(c) or "").endswith("repmat") and any(
         isinstance(a, ast.Starred) and norm(a.value).endswith(".symbol.size()") for a in c.args) for c in calls(vm))
     rep.note("R19.6 producer: rows per variable = %s" % ("element count (repmat to symbol.size())" if per_element else "1"))
     ld = api_fn(ctx, "load_model", R)
@@ -254,7 +292,7 @@ def r19_6(ctx, rep):
     tables = set()
     for st in walk_local(ld):
         if isinstance(st, ast.Assign) and isinstance(st.targets[0], ast.Name) and isinstance(st.value, ast.Call) and call_name(st.value) == "dict" \
-                and any(isinstance(c, ast.Call) and call_name(c).endswith("variable_metadata_function") for c in ast.walk(st.value)):
+                and any(isinstance(c, ast.Call) and (call_name(c) or "").endswith("variable_metadata_function") for c in ast.walk(st.value)):
             tables.add(st.targets[0].id)
     if len(tables) < 2:
         raise MechanismMissing(R, "load_model no longer builds the two metadata tables from variable_metadata_function")
